@@ -412,3 +412,43 @@ def _cond_true(conds: Dict, c) -> bool:
 
 def _show_conds(conds: Dict) -> str:
     return ", ".join("%s(%s, %s)=%s" % (k[0], show(k[1], 2), show(k[2], 2) if isinstance(k[2], tuple) else k[2], v) for k, v in conds.items())
+
+
+def rule_opposite_predicate(ctx: Ctx, rule: str = "opposite-terms") -> None:
+    """The printer's pairing test: two terms are 'opposite' iff they have the same variables and negated
+    coefficients - in BOTH directions (a term with extra variables is not the opposite of a shorter one)."""
+    from .ratnf import Rat
+    from .rules_kernels import _run
+    from .termalg import DictV, Key, Rec, TermAlg, num, sym
+
+    prog = ctx.prog
+    key = "serializer._are_polyhedral_terms_opposite"
+    x, y = Key("x"), Key("y")
+
+    def approx(ta, pos, kw):
+        a, b = pos[0], pos[1]
+        if isinstance(a, Rat) and isinstance(b, Rat):
+            return (a - b).is_zero()
+        return False
+
+    def term(d, c):
+        return Rec("PolyhedralTerm", {"variables": DictV(d), "constant": c})
+
+    def thunk():
+        fi = prog.func(key)
+        stubs = {"serializer._are_numbers_approximatively_equal": approx}
+        a = term({x: sym("a")}, sym("c"))
+        cases = [
+            ("exact opposite", a, term({x: -sym("a")}, sym("d")), True),
+            ("same term", a, term({x: sym("a")}, sym("d")), False),
+            ("partner has an extra variable", a, term({x: -sym("a"), y: sym("b")}, sym("d")), False),
+            ("head has an extra variable", term({x: sym("a"), y: sym("b")}, sym("c")), term({x: -sym("a")}, sym("d")), False),
+            ("different variables", a, term({y: -sym("a")}, sym("d")), False),
+        ]
+        for label, t1, t2, want in cases:
+            got = TermAlg(prog, stubs).call(fi, [t1, t2], {})
+            if got is not want:
+                return "%s: answered %s, expected %s" % (label, got, want)
+        return None
+
+    _run(ctx, rule, key, "_are_polyhedral_terms_opposite: same variables in both directions and negated coefficients", thunk)
